@@ -79,6 +79,7 @@ func runCheck(o checkOpts) int {
 		}
 	}
 	timeout := timeoutFor(o.tier)
+	crossCheck = o.tier == "thorough"
 
 	var obs []*Obligation
 	var findingLemmas []*LemmaResult
@@ -389,6 +390,7 @@ func runCheck(o checkOpts) int {
 		"notes":                    extraNotes,
 		"engine_errors":            engineErrs,
 		"per_obligation_timeout_s": timeout,
+		"cross_checked":            map[string]interface{}{"enabled": crossCheck, "answers_confirmed_by_a_second_solver": crossConfirmed, "answers_by_one_solver_only": crossAlone},
 	}
 	ev := evidence{PropertyID: o.id, Tier: o.tier, Seed: o.seed, Level: "proof", Coverage: cov, Assumptions: tb, WallS: time.Since(t0).Seconds(), Violations: violations}
 	evDir := filepath.Join(o.verifDir, "evidence")
